@@ -221,6 +221,28 @@ def run(repo):
                                          repo.where(fi, n), P))
     if n_calls < 8:
         raise AnalysisError('only %d event_dict/comb_set calls found' % n_calls)
+    # ---------------------------------------------------------------- (e) representation of events
+    writers = 0
+    for fi in repo.all_functions():
+        if fi.module not in SCAN:
+            continue
+        for n in walk_no_nested(fi.node):
+            if isinstance(n, ast.Call) and isinstance(n.func, ast.Attribute) and n.func.attr in ('append', 'extend') \
+                    and ntext(n.func.value).endswith('exp_constr_indices') and n.args:
+                writers += 1
+                a = n.args[0]
+                ok = (isinstance(a, ast.Call) and call_name(a) == 'list') or isinstance(a, (ast.List, ast.ListComp))
+                res.functions.add(fi.fq)
+                res.inst({'function': fi.fq, 'event_members_stored_as': ntext(a)[:40], 'plain_list': ok}, ok)
+                if not ok:
+                    res.fail(Finding(RULE, fi.fq, 'exp_constr_indices element',
+                                     '%s stores `%s` as the member set of an expectation event; dro_to_roc '
+                                     'tests membership with `s in members` on scenario *positions*, which is '
+                                     'only right for a plain list of positions (on a pandas Series `in` tests '
+                                     'the labels)' % (fi.fq, ntext(a)[:40]), repo.where(fi, n),
+                                     {'props': ['C03', 'C04']}))
+    if writers < 1:
+        raise AnalysisError('no writer of exp_constr_indices found')
     # ---------------------------------------------------------------- (c)
     rv = repo.func('dro.Model.rule_var')
     res.functions.add(rv.fq)
